@@ -4350,3 +4350,31 @@ ARGS_CMD_CD = _cmd(CLI_DISTANCE_MATRIX, _CD_NS, "cd", "src_cli_calculate_distanc
 ARGS_CMD_CD["out"] = "SrcCliArgsDist.v"
 ARGS_CMD_CD["imports"] = _NS_IMPORTS + " Generated.SrcCliArgs"
 ALL += [ARGS_GET_ARGS_CD, ARGS_CMD_CD]
+# ---- C04 (gap round): ComboGridFactorModel._add_observations (models/grid_combo.py; vocabulary: the last part of Model/Train.v).
+# The six numpy arrays of the object are six variables (attr_vars).  Trusted: unpack_data(...) with use_mask=True as ONE primitive =
+# Train.unpack_cols u data (row-wise over the rows with mask, value-blind: see Model/Train.v), np.concatenate([a, b]) = a ++ b,
+# np.clip with the literal bounds of the call, a[mask] = select, the >= 0.0 test and .all() as in the other C04 entries.
+_GRID_ATTRS = {"self.sample_ids": "g_sample_ids", "self.log_concs_1": "g_log_concs_1", "self.log_concs_2": "g_log_concs_2",
+               "self.drug_ids_1": "g_drug_ids_1", "self.drug_ids_2": "g_drug_ids_2", "self.y": "g_y"}
+C04_GRID_ADD = dict(
+    _C04, out="SrcTrainGrid.v", file="src/batchie/models/grid_combo.py", cls="ComboGridFactorModel", func="_add_observations",
+    name="src_grid_add_observations", pyparams=["self", "data"],
+    attr_vars=_GRID_ATTRS,
+    params=[("C", "Type"), ("u", "unpack_fn C"), ("g_sample_ids", "list Z"), ("g_log_concs_1", "list C"), ("g_log_concs_2", "list C"),
+            ("g_drug_ids_1", "list Z"), ("g_drug_ids_2", "list Z"), ("g_y", "list oval"), ("data", "list trow")],
+    returns="(list Z * list C * list C * list Z * list Z * list oval)",
+    vars={"sample_ids": "list Z", "drug_ids_1": "list Z", "drug_ids_2": "list Z", "log_conc1": "list C", "log_conc2": "list C",
+          "mask": "list bool", "g_sample_ids": "list Z", "g_log_concs_1": "list C", "g_log_concs_2": "list C",
+          "g_drug_ids_1": "list Z", "g_drug_ids_2": "list Z", "g_y": "list oval"},
+    overload=True,
+    float_literals=("q_of_pair ({n}, {d})", "Qc"),
+    prims=_C04_ROWS + _C04_NUMPY + [
+        ("unpack_data(data=data, drugname2idx=self.drugname2idx, use_mask=True)", "unpack_cols u data'",
+         "(list Z * list Z * list Z * list C * list C)"),
+        ("np.clip(__a, a_min=__lo, a_max=__hi)", "map (oclip_at {lo} {hi}) {a}", "list oval", {"a": "list oval", "lo": "Qc", "hi": "Qc"}),
+        ("__a[__m]", "select {m} {a}", "list oval", {"a": "list oval", "m": "list bool"}),
+    ] + [("np.concatenate([__a, __b])", "({a} ++ {b})", t, {"a": t, "b": t}) for t in ("list Z", "list C", "list oval")],
+    raises=[("Observations should be non-negative", 2)],
+    implicit_return="({g_sample_ids}, {g_log_concs_1}, {g_log_concs_2}, {g_drug_ids_1}, {g_drug_ids_2}, {g_y})",
+)
+ALL += [C04_GRID_ADD]
